@@ -3127,6 +3127,9 @@ namespace bloch::runtime {
     void RuntimeEvaluator::releaseQubit(int index) {
         if (index < 0 || index >= static_cast<int>(m_qubits.size()))
             return;
+        if (std::find(m_freeQubitIndices.begin(), m_freeQubitIndices.end(), index) !=
+            m_freeQubitIndices.end())
+            return;  // already released (e.g. a qubit handle copied into two destroyed objects)
         unmarkMeasured(index);
         m_qubits[index].name.clear();
         m_freeQubitIndices.push_back(index);
